@@ -46,8 +46,8 @@ def case(draw, tier):
                  "multi_operator_containers": draw(st.booleans()), "allow_memory_overcommit": draw(st.booleans()),
                  "duration": draw(st.sampled_from([1, 50, 10000])), "rest_poll_interval": 0.25}
         return {"kind": "genpair", "workload_params": wl, "other": other}
-    target = draw(st.one_of(sim_case(SCHEDS, "quick"), preempt_case("quick"), preempt_case("quick"), gen_case("quick"),
-                            sim_case(["overbook", "priority"], "quick")))
+    target = draw(st.one_of(sim_case(SCHEDS, "quick"), preempt_case("quick"), preempt_case("quick"), preempt_case("quick"),
+                            gen_case("quick"), sim_case(["overbook", "priority"], "quick")))
     if target.get("arrivals") and draw(st.integers(0, 2)) == 0:
         # twins: identical pipelines arriving together (equal OOM scores, equal suspension lengths): ties are where
         # identifier- or hash-order dependence can show
